@@ -24,7 +24,7 @@ from ..kernel import Discard, EventLog, InjectedFault, Streams, Violation, close
 PROP = "C10"
 
 EVIDENCE = {
-    "probes_expected": ["condensed-vs-explicit-compared", "restart-dropped-state", "recreated-body-compared", "matrix-after-evaluate-compared", "unrelated-dual-field-created-before", "uniform-knob-compared", "uniform-knob-assembly-compared", "planestrain-slab-compared", "axisymmetric-energy-compared", "fault:solver_inexact", "distorted-mesh"],
+    "probes_expected": ["condensed-vs-explicit-compared", "restart-dropped-state", "recreated-body-compared", "matrix-after-evaluate-compared", "unrelated-dual-field-created-before", "uniform-knob-compared", "uniform-knob-assembly-compared", "planestrain-slab-compared", "axisymmetric-energy-compared", "axisymmetric-stress-reused", "fault:solver_inexact", "distorted-mesh"],
     "clauses_sampled_only": [
         "plane strain vs unit-thickness slab (in-plane forces and stiffness) is a pure function of the state; evaluated at the converged states the histories reach",
         "axisymmetric nodal forces = derivative of the 2 pi R weighted strain energy: pure; evaluated by central differences of the energy at the reached states. Convergence of the axisymmetric model to a revolved 3D model is not attempted",
@@ -389,6 +389,23 @@ def run_axi(doc, log):
     w.set_values([u])
     body = fem.SolidBody(um, w.field)
     f = body.assemble.vector(field=w.field).toarray().reshape(u.shape)
+    # one evaluated stress array used for several forms (reactions, post-processing): every
+    # assembly gives the same forces, the caller's array and the body's stored stress stay what
+    # the material returned
+    Fx = w.field.extract()[0]
+    P = um.gradient([Fx, np.zeros((0,) + Fx.shape[-2:])])[0]
+    Pkeep = P.copy()
+    sc_ = float(np.abs(f).max()) + 1e-9
+    for n_ in range(3):
+        fn = fem.IntegralForm([P], v=w.field, dV=w.region.dV).assemble().toarray().reshape(u.shape)
+        if not np.array_equal(P, Pkeep):
+            raise Violation(PROP, "axisymmetric-energy", f"assembling an axisymmetric force form changed the caller's stress array (max change {np.abs(P-Pkeep).max():.3e})", site="IntegralFormAxisymmetric.inputs")
+        if float(np.abs(fn - f).max()) > 1e-10 * sc_:
+            raise Violation(PROP, "axisymmetric-energy", f"assembly {n_ + 1} of the same stress array differs from the body's nodal forces by {np.abs(fn - f).max():.3e}", site="IntegralFormAxisymmetric.repeat")
+    st = body.results.stress[0] if isinstance(body.results.stress, (list, tuple)) else body.results.stress
+    if st is not None and np.shape(st) == Pkeep.shape and float(np.abs(np.asarray(st) - Pkeep).max()) > 1e-10 * (float(np.abs(Pkeep).max()) + 1e-9):
+        raise Violation(PROP, "axisymmetric-energy", f"stress stored by the body after the assembly differs from the material's stress at the same state by {np.abs(np.asarray(st) - Pkeep).max():.3e}", site="SolidBody.results.stress[axisymmetric]")
+    log.count("axisymmetric-stress-reused")
     for _ in range(4):
         p = int(rng.integers(u.shape[0]))
         cidx = int(rng.integers(2))
